@@ -35,7 +35,9 @@ view == <<gen, ev>>     \* the outcome is an output, not part of the state the h
 \*            (operations are held by shared pointer): OpUsers are then all live generators, and whatever Destroy or
 \*            ResetReinit of one of them does to the object is seen by the others.
 \*   "pair"   every generator is given TWO operation objects of its own whose order matters (registration order = application order)
-OpModes == {"none", "own", "shared", "pair"}
+\*   "strict" one operation that refuses events lacking its target (error_on_missing_particle): the outcome of a shot may be a
+\*            refusal (an exception the caller catches) - it is canonical like any other outcome, and so is the shot after it
+OpModes == {"none", "own", "shared", "pair", "strict"}
 OpUsers(mode) == IF mode = "shared" THEN {g \in Gens : gen[g].st = "init"} ELSE {}
 
 Absent == [st |-> "absent", cfg |-> "none", prev |-> "none", shots |-> "none"]
